@@ -24,3 +24,14 @@ Lemma helpers_are_exact_lookups :
   gen_lookup_type = "func(pkg *types.Package, pkgPath, objectName string) (types.Type, error) :: obj := pkg.Scope().Lookup(objectName) ;; if obj == nil { return nil, fmt.Errorf(""%s is not found in %s"", objectName, pkgPath) } ;; return obj.Type(), nil" /\
   gen_find_dependency = "func(pkg *types.Package, path string) *types.Package :: if pkg.Path() == path { return pkg } ;; for _, imported := range pkg.Imports() { if dep := findDependency(imported, path); dep != nil && dep.Complete() { return dep } } ;; return nil".
 Proof. split; reflexivity. Qed.
+
+(* the block that asks the dependencies of the package being checked runs only with a package and a name that HAS a dot (so the
+   halves it slices out are the halves of gen_split_fqn); and what FindType remembers is remembered under the WHOLE name: the
+   engine-wide cache under the string as written, the per-importer cache of dependency answers under (asking package, string as
+   written) -- the key type has these two fields and no other. A key made of less (the object name, the package path) serves
+   the answer for one name to a lookup of another name. *)
+Lemma caches_are_keyed_by_the_whole_name :
+  gen_fqn_dep_guard = "currentPkg != nil && pos != -1" /\
+  gen_fqn_cache_keys = [("importer.depTypes", "depTypeKey{pkg: currentPkg, fqn: fqn}"); ("state.typeByFQN", "fqn")] /\
+  gen_fqn_key_structs = [("depTypeKey", "pkg *types.Package; fqn string")].
+Proof. repeat split; reflexivity. Qed.
